@@ -80,6 +80,9 @@ def explore(ctx):
                 cap, xh = [645, 701, 700, 650, 0, 647][tcount % 6], [449, 453, 500, 480, 451][tcount % 5]
                 font.info.capHeight = cap
                 font.info.xHeight = xh
+                angle = [0, 0, 0, 10, 0, 0, 0, -12.5, 0, 0, 0, 20][tcount % 12]
+                if angle:
+                    opts["Slant"] = angle
                 case["options"] = dict(opts, capHeight=cap, xHeight=xh)
                 f = TransformationsFilter(**opts, **kw)
                 modified = f(font, gset)
@@ -87,9 +90,12 @@ def explore(ctx):
                 # (cap height, x-height, their halves rounded half up, or the baseline)
                 h = {0: Fr(cap), 1: Fr(geom.ot_round(Fr(cap, 2))), 2: Fr(xh), 3: Fr(geom.ot_round(Fr(xh, 2))), 4: Fr(0)}[opts["Origin"]]
                 fx, fy = Fr(sx, 100), Fr(sy, 100)
-                if sx == 100 and sy == 100:
+                if sx == 100 and sy == 100 and not angle:
                     h = Fr(0)
-                m = (fx, Fr(0), Fr(0), fy, Fr(opts["OffsetX"]), Fr(opts["OffsetY"]) + h - fy * h)
+                # slanting (x += tan(angle) * (y - h)) happens before the scaling, both about the origin height
+                import math
+                t = Fr(math.tan(math.radians(angle))) if angle else Fr(0)
+                m = (fx, Fr(0), fx * t, fy, Fr(opts["OffsetX"]) - fx * t * h, Fr(opts["OffsetY"]) + h - fy * h)
                 case["matrix"] = jsonable(m)
                 case["filter_matrix"] = jsonable(tuple(Fr(v) for v in f.context.matrix))
             else:
@@ -136,6 +142,12 @@ def explore(ctx):
                 skipped = [n for n in names if n in included and (reach(n, set()) & tainted)]
                 if skipped:
                     ctx.klass("transform:included-above-excluded-composite(not guaranteed)", len(skipped))
+            if case["options"].get("Slant"):
+                # tan(angle) is irrational: the filter's float arithmetic is not the exact rational arithmetic of the
+                # Gallina model, so slanted cases are judged here against the same statement with a 1e-6 tolerance
+                ctx.klass("transform:slant (float tangent: judged outside Coq, tolerance 1e-6)")
+                slant_check(ctx, case, m, incl_eff, skipped, before, after)
+                continue
             trans[0].append(G.tup(geom.g_affine(m), G.lst([G.s(n) for n in incl_eff], "str"),
                                   G.lst([G.s(n) for n in skipped], "str"), g0, g1, G.b(not kw)))
             trans[1].append(case)
@@ -156,6 +168,70 @@ def explore(ctx):
         if meta:
             ctx.sample({"filter": meta[0]["filter"], "include_args": meta[0]["include_args"],
                         "glyphs": meta[0]["font"]["glyphs"][:2]})
+
+
+def _seg_numbers(segs):
+    out = []
+    for s in segs:
+        if s[0] == "blob":
+            out.append(("blob", len(s[1]))); out.extend(v for p in s[1] for v in p)
+            continue
+        kind, start, sg, trailing = s
+        out.append((kind, len(sg), len(trailing))); out.extend(start)
+        for g in sg:
+            out.append(g[0])
+            if g[0] == "line":
+                out.extend(g[1])
+            else:
+                out.extend(v for p in g[1] for v in p); out.extend(g[2])
+        out.extend(v for p in trailing for v in p)
+    return out
+
+
+def _close(a, b, tol=Fr(1, 10 ** 6)):
+    if len(a) != len(b):
+        return False
+    for x, y in zip(a, b):
+        if isinstance(x, (str, tuple)) or isinstance(y, (str, tuple)):
+            if x != y:
+                return False
+        elif abs(Fr(x) - Fr(y)) > tol:
+            return False
+    return True
+
+
+def slant_check(ctx, case, m, incl_eff, skipped, before, after):
+    """every effectively included glyph's resolved outline, anchors and advance are mapped by the requested matrix;
+    every other glyph (except the not-guaranteed ones) is untouched"""
+    b0 = {g["name"]: g for g in before}
+    b1 = {g["name"]: g for g in after}
+    f = lambda pt: geom.apply_aff(m, pt)
+    for n in b0:
+        if n in skipped:
+            continue
+        if n not in incl_eff:
+            if b0[n] != b1[n] and (b0[n]["contours"] or b0[n]["components"] or b0[n]["anchors"]) and n not in case.get("_included", [n]):
+                ctx.spec_failure(dict(case, glyph=n), "a glyph outside the include set was changed by the slanting transformation")
+            continue
+        # (for a mirroring matrix: up to the direction of each contour, exactly as transformed_ok in Geometry/Filters.v --
+        # own contours are mapped without reversal while references to untouched glyphs reverse when resolved)
+        want = [geom.map_segments(sg, f) for sg in geom.ref_resolve(b0, n)]
+        got = geom.ref_resolve(b1, n)
+        mirrors = m[0] * m[3] - m[1] * m[2] < 0
+        if len(want) != len(got) or not all(
+                _close(_seg_numbers([w]), _seg_numbers([g])) or
+                (mirrors and _close(_seg_numbers([geom.closed_reverse(w)]), _seg_numbers([g]))) for w, g in zip(want, got)):
+            ctx.spec_failure(dict(case, glyph=n), "resolved outline of %r is not the source outline mapped by the requested "
+                                                  "(offset, origin, scale, slant) matrix" % n)
+            return
+        wa = [v for a in b0[n]["anchors"] for v in (a[0],) + tuple(f((Fr(a[1]), Fr(a[2]))))]
+        ga = [v for a in b1[n]["anchors"] for v in (a[0], a[1], a[2])]
+        if not _close(wa, ga):
+            ctx.spec_failure(dict(case, glyph=n), "anchors of %r are not mapped by the requested matrix" % n)
+            return
+        if abs(Fr(b1[n]["width"]) - m[0] * Fr(b0[n]["width"])) > Fr(1, 10 ** 6):
+            ctx.spec_failure(dict(case, glyph=n), "advance of %r is not scaled by ScaleX" % n)
+            return
 
 
 def check_propagate(ctx, case, before, after, font, kw, lib, desc):
